@@ -130,44 +130,31 @@ func (w *c17World) peerData() {
 	vkernel.PeerSends(w.fd, wsEncode(nil, &wsFrame{fin: true, opcode: 2, n: 1, payload: vf.Bytes("data", 1)}))
 }
 
-func VerifC17_History() {
-	vkernel.Reset(vkernel.Config{Batch: 2, MaxWaits: vf.Bound("max-polls", 8, 10)})
+func c17New() *c17World {
+	vkernel.Reset(vkernel.Config{Batch: 2, MaxWaits: 12})
 	w := &c17World{ioc: sonic.MustIO()}
 	w.fd = vkernel.NewStream()
+	vkernel.PeerSends(w.fd, nil) // the harness is the peer from the start: input is exactly what it scripts
 	var adapter *sonic.AsyncAdapter
 	sonic.NewAsyncAdapter(w.ioc, c17Conn{w.fd}, c17Conn{w.fd}, func(err error, a *sonic.AsyncAdapter) { adapter = a })
 	vf.Assume(adapter != nil)
 	w.s = wsNewStream(adapter, 1<<16)
-	K := vf.Bound("k", 4, 5)
-	vf.Unwind(64)
-	for i := 0; i < K; i++ {
-		switch vf.Choice("step", 6) {
-		case 0:
-			w.startRead()
-		case 1:
-			w.startWrite()
-		case 2:
-			w.peerPing()
-		case 3:
-			w.peerData()
-		case 4:
-			w.ioc.PollOne()
-		case 5:
-			w.startClose()
-		}
-	}
-	// drain: the transport is healthy and the loop is run; the peer keeps sending data so that a
-	// pending read can complete
+	return w
+}
+
+// finish: the transport is healthy and the loop is run; the peer keeps sending data so that a
+// pending read can complete. Then every started operation must have completed exactly once and
+// the peer must have received whole frames, each submitted frame once, in order.
+func (w *c17World) finish() {
 	w.peerData()
 	w.peerData()
-	for p := 0; p < 6; p++ {
+	vkernel.K.Cfg.Eager = true // from here on every poll reports everything that is ready
+	for p := 0; p < 8; p++ {
 		w.ioc.PollOne()
 	}
-	vf.Known("KF-C17-1", true)
 	for id := 0; id < w.nops; id++ {
 		vf.Assert("every-started-operation-completes-exactly-once", w.ops[id].calls == 1)
 	}
-	// the peer receives whole frames, each submitted frame once, in order
 	out := vkernel.K.FDs[w.fd].Accepted
 	off, i := 0, 0
 	for off < len(out) {
@@ -181,5 +168,55 @@ func VerifC17_History() {
 		off += p.total
 		i++
 	}
+	vf.Assert("every-submitted-frame-reached-the-peer", i == len(w.sent))
+}
+
+// A read is pending; an application write is started and completes; data arrives: both complete once.
+func VerifC17_ReadPendingThenWrite() {
+	w := c17New()
+	vf.Unwind(64)
+	w.startRead()
+	if vf.Bool("poll-between") {
+		w.ioc.PollOne()
+	}
+	w.startWrite()
+	w.finish()
+	vf.Reach("end")
+}
+
+// A Ping has been read (its Pong is queued); the next read (which flushes the Pong) and an
+// application write are started in either order before, or around, the next poll cycle.
+func VerifC17_PongFlushAndWrite() {
+	w := c17New()
+	vf.Unwind(64)
+	w.peerPing()
+	w.startRead()
+	for p := 0; p < 3 && w.readOut; p++ {
+		w.ioc.PollOne()
+	}
+	vf.Assume(!w.readOut) // the ping has been delivered; its pong is queued
+	vf.Assert("pong-queued", w.s.Pending() == 1)
+	order := vf.Choice("order", 3)
+	vf.Known("KF-C17-1", order != 2)
+	switch order {
+	case 0:
+		w.startRead()
+		w.startWrite()
+		vf.Reach("read-then-write")
+	case 1:
+		w.startWrite()
+		w.startRead()
+		vf.Reach("write-then-read")
+	case 2:
+		// serialised by a poll cycle in between: the pong flush finishes before the write starts
+		w.startRead()
+		for p := 0; p < 3 && vkernel.K.FDs[w.fd].Accepted == nil; p++ {
+			w.ioc.PollOne()
+		}
+		vf.Assume(len(vkernel.K.FDs[w.fd].Accepted) > 0)
+		w.startWrite()
+		vf.Reach("serialised")
+	}
+	w.finish()
 	vf.Reach("end")
 }
